@@ -434,6 +434,8 @@ class Engine:
             return z3.BoolVal(True)
         if isinstance(v, (VFunc, VClass, VBound, VModule, VClosure)):
             return z3.BoolVal(True)
+        if hasattr(v, "truth_term"):
+            return v.truth_term()
         raise Unsupported("truthiness of %r" % (v,))
 
     # ------------------------------------------------------------------------------------------------ names
@@ -644,6 +646,8 @@ class Engine:
             raise Unsupported("class attribute %s" % q)
         if isinstance(v, (VBytes, VStr, VTuple, VList, VInt, VJoinList, VSeq, VSet, VReal)):
             return [Res(st, VBound(v, name))]
+        if (type(v).__name__, name) in self.R.methods:
+            return [Res(st, VBound(v, name))]       # sidecar-defined value types (e.g. tag sets)
         if isinstance(v, VOpaque):
             h = self.R.specs.get("U.getattr")
             if h:
@@ -999,6 +1003,8 @@ class Engine:
                 return m.contains(self, st, cont, item)
         if isinstance(cont, VSeq):
             return z3.Contains(cont.e, z3.Unit(z(item)))
+        if hasattr(cont, "contains_term"):
+            return cont.contains_term(item)
         raise Unsupported("`in` on %r" % (cont,))
 
     def compare(self, op, a, b, st, node):
@@ -1178,7 +1184,11 @@ class Engine:
         # logging and friends are dropped (DESIGN 2.2)
         if self.is_dropped_call(node, st, module):
             # the logging call itself is dropped, but its arguments are evaluated (they may raise or have effects)
-            oks, excs = self.ev_list(list(node.args) + [k.value for k in node.keywords], st, module)
+            self.in_dropped_call = getattr(self, "in_dropped_call", 0) + 1
+            try:
+                oks, excs = self.ev_list(list(node.args) + [k.value for k in node.keywords], st, module)
+            finally:
+                self.in_dropped_call -= 1
             return [Res(s_, NONE) for s_, _vals in oks] + excs
         if isinstance(node.func, ast.Attribute) and node.func.attr in self.MUTATORS and not node.keywords:
             r = self.try_mutator(node, st, module)
@@ -1220,7 +1230,8 @@ class Engine:
         if len(rs) != 1 or rs[0].exc is not None:
             return None
         recv = rs[0].val
-        if not isinstance(recv, (VBytes, VList, VJoinList, VSet, VSeq)):
+        if not isinstance(recv, (VBytes, VList, VJoinList, VSet, VSeq)) and \
+                (type(recv).__name__, "mut:" + node.func.attr) not in self.R.methods:
             return None
         h = self.R.methods.get((type(recv).__name__, "mut:" + node.func.attr))
         if h is None:
@@ -1340,6 +1351,9 @@ class Engine:
                 return m.methods[name](m, self, st, recv, args, kwargs)
             raise Unsupported("method %s without contract" % q)
         tname = type(recv).__name__
+        # an optional argument reaching a method of a typed value is used as that value (the None case is a TypeError path
+        # guarded by the code's own truthiness tests)
+        args = [x.val if isinstance(x, VOpt) else x for x in args]
         h = self.R.methods.get((tname, name))
         if h is not None:
             return h(self, st, recv, args, kwargs)
@@ -1393,6 +1407,9 @@ class Engine:
         mod, fnode = self.contract_fnode(c)
         a = self.bind_params(fnode, args, kwargs, st, mod)
         site = "%s@L%s" % (c.name.split(".")[-1], getattr(node, "lineno", "?"))
+        caller = getattr(self, "cur_contract", None)
+        if caller is not None and hasattr(caller, "on_contract_call"):
+            caller.on_contract_call(self, st, c, a)
         for label, cond in c.requires(self, st, a):
             self.oblige(st, "pre@%s[%s]" % (site, label), cond, kind="pre")
         out = []
@@ -1467,6 +1484,8 @@ class Engine:
             return VSet(fresh(name, v.e.sort()), fresh(name + "_card", IntS), v.esort)
         if isinstance(v, (VObj, VNone, VModule, VFunc, VClass, VBound, VClosure)):
             return v
+        if hasattr(v, "fresh_like"):
+            return v.fresh_like(name)
         if isinstance(v, z3.ExprRef):
             return fresh(name, v.sort())
         if hasattr(v, "e") and isinstance(getattr(v, "e"), z3.ExprRef):
